@@ -156,7 +156,7 @@ package vm
 //@   ensures result.StateGas == K2(g)
 //@   ensures result.ExecutionGas == g.ExecutionGas + g.Spilled
 //@   ensures result.UsedExecutionGas == g.UsedExecutionGas && result.UsedStateGas == 0 && result.Spilled == 0
-//@   ensures K1(result) == K1(g) && K2(result) == K2(g)
+//@   ensures K1(result) == K1(g) && K2(result) == K2(g) && ranged(result)
 //@   nowrap
 
 // A halted frame hands back its initial reservoir (K2) and no execution gas.
@@ -166,7 +166,7 @@ package vm
 //@   ensures result.StateGas == K2(g)
 //@   ensures result.ExecutionGas == 0
 //@   ensures result.UsedExecutionGas == K1(g) && result.UsedStateGas == 0 && result.Spilled == 0
-//@   ensures K1(result) == K1(g) && K2(result) == K2(g)
+//@   ensures K1(result) == K1(g) && K2(result) == K2(g) && ranged(result)
 //@   nowrap
 
 //@ func (g GasBudget) Exit(err error) (result GasBudget)
@@ -176,7 +176,7 @@ package vm
 //@   ensures err != nil ==> result.StateGas == K2(g) && result.UsedStateGas == 0 && result.Spilled == 0
 //@   ensures err == ErrExecutionReverted ==> result.ExecutionGas == g.ExecutionGas + g.Spilled && result.UsedExecutionGas == g.UsedExecutionGas
 //@   ensures err != nil && err != ErrExecutionReverted ==> result.ExecutionGas == 0 && result.UsedExecutionGas == K1(g)
-//@   ensures K1(result) == K1(g) && K2(result) == K2(g)
+//@   ensures K1(result) == K1(g) && K2(result) == K2(g) && ranged(result)
 //@   nowrap
 
 // Absorb: the child's leftover is merged back. fwd is what Forward added to the
@@ -305,7 +305,7 @@ package vm
 //@   oncall CreateAccount CreateContract SetNonce SetCode SetState SetTransientState AddBalance SubBalance SelfDestruct SelfDestruct6780 AddLog AddRefund SubRefund Touch Transfer Run RunPrecompiledContract initNewContract: dirty = true; early = early || !hasSnap
 //@   ensures err != nil ==> !dirty
 //@   ensures !early
-//@   ensures K1(result) == K1(gas) && K2(result) == K2(gas)
+//@   ensures K1(result) == K1(gas) && K2(result) == K2(gas) && ranged(result)
 //@   ensures err != nil ==> result.StateGas == gas.StateGas && result.UsedStateGas == 0 && result.Spilled == 0
 //@   ensures err != nil && err != ErrExecutionReverted && err != ErrDepth && err != ErrInsufficientBalance ==> result.ExecutionGas == 0
 //@   modifies evm.depth, evm.readOnly, evm.returnData, *evm.AccessEvents, *evm.precompileCache
@@ -323,7 +323,7 @@ package vm
 //@   oncall SetNonce CreateAccount CreateContract SetCode SetState SetTransientState AddBalance SubBalance SelfDestruct SelfDestruct6780 AddLog AddRefund SubRefund Touch Transfer Run RunPrecompiledContract initNewContract: dirty = true; early = early || !hasSnap
 //@   ensures err != nil ==> !dirty
 //@   ensures !early
-//@   ensures K1(result) == K1(gas) && K2(result) == K2(gas)
+//@   ensures K1(result) == K1(gas) && K2(result) == K2(gas) && ranged(result)
 //@   ensures err != nil ==> result.StateGas == gas.StateGas && result.UsedStateGas == 0 && result.Spilled == 0
 //@   modifies evm.depth, evm.readOnly, evm.returnData, *evm.AccessEvents, *evm.precompileCache
 //@   mutates
@@ -340,7 +340,7 @@ package vm
 //@   oncall SetNonce CreateAccount CreateContract SetCode SetState SetTransientState AddBalance SubBalance SelfDestruct SelfDestruct6780 AddLog AddRefund SubRefund Touch Transfer Run RunPrecompiledContract initNewContract: dirty = true; early = early || !hasSnap
 //@   ensures err != nil ==> !dirty
 //@   ensures !early
-//@   ensures K1(result) == K1(gas) && K2(result) == K2(gas)
+//@   ensures K1(result) == K1(gas) && K2(result) == K2(gas) && ranged(result)
 //@   ensures err != nil ==> result.StateGas == gas.StateGas && result.UsedStateGas == 0 && result.Spilled == 0
 //@   modifies evm.depth, evm.readOnly, evm.returnData, *evm.AccessEvents, *evm.precompileCache
 //@   mutates
@@ -357,7 +357,7 @@ package vm
 //@   oncall SetNonce CreateAccount CreateContract SetCode SetState SetTransientState AddBalance SubBalance SelfDestruct SelfDestruct6780 AddLog AddRefund SubRefund Touch Transfer Run RunPrecompiledContract initNewContract: dirty = true; early = early || !hasSnap
 //@   ensures err != nil ==> !dirty
 //@   ensures !early
-//@   ensures K1(result) == K1(gas) && K2(result) == K2(gas)
+//@   ensures K1(result) == K1(gas) && K2(result) == K2(gas) && ranged(result)
 //@   ensures err != nil ==> result.StateGas == gas.StateGas && result.UsedStateGas == 0 && result.Spilled == 0
 //@   modifies evm.depth, evm.readOnly, evm.returnData, *evm.AccessEvents, *evm.precompileCache
 //@   mutates
@@ -378,7 +378,15 @@ package vm
 //@   oncall CreateAccount CreateContract SetCode SetState SetTransientState AddBalance SubBalance SelfDestruct SelfDestruct6780 AddLog AddRefund SubRefund Touch Transfer Run RunPrecompiledContract initNewContract: dirty = true; early = early || !hasSnap
 //@   ensures err != nil && (evm.chainRules.IsHomestead || err != ErrCodeStoreOutOfGas) ==> !dirty
 //@   ensures !early
-//@   ensures K1(result) == K1(gas) && K2(result) == K2(gas)
+//@   ensures K1(result) == K1(gas) && K2(result) == K2(gas) && ranged(result)
+//@   ensures err != nil && (evm.chainRules.IsHomestead || err != ErrCodeStoreOutOfGas) ==> result.StateGas == gas.StateGas && result.UsedStateGas == 0 && result.Spilled == 0
+//@   modifies evm.depth, evm.readOnly, evm.returnData, *evm.AccessEvents, *evm.precompileCache
+//@   mutates
+
+//@ func (evm *EVM) Create(caller common.Address, code []byte, gas GasBudget, value *uint256.Int) (ret []byte, contractAddr common.Address, result GasBudget, err error)
+//@   serves C29 C31
+//@   requires freshBudget(gas)
+//@   ensures K1(result) == K1(gas) && K2(result) == K2(gas) && ranged(result)
 //@   ensures err != nil && (evm.chainRules.IsHomestead || err != ErrCodeStoreOutOfGas) ==> result.StateGas == gas.StateGas && result.UsedStateGas == 0 && result.Spilled == 0
 //@   modifies evm.depth, evm.readOnly, evm.returnData, *evm.AccessEvents, *evm.precompileCache
 //@   mutates
